@@ -327,7 +327,7 @@ def repo_fingerprint():
     return h.hexdigest()[:16]
 
 
-def harness_build(crate, release=False, features=None, no_default=False, extra_rustflags="", env=None, tag="", bins=None, timeout=1500, toolchain=None):
+def harness_build(crate, release=False, features=None, no_default=False, extra_rustflags="", env=None, tag="", bins=None, timeout=1500, toolchain=None, shim=False):
     """cargo build /verif/harness/<crate> against /repo's working tree with the verification cfg.
        Returns (ok, target_bin_dir, log)."""
     ensure_dirs()
@@ -346,7 +346,8 @@ def harness_build(crate, release=False, features=None, no_default=False, extra_r
     for b in bins or []:
         cmd += ["--bin", b]
     e = {"RUSTFLAGS": ("--cfg %s %s" % (GUARD, extra_rustflags)).strip(),
-         "UAZU_STAKKER_VERIF_STD": os.path.join(ROOT, "harness", "shim", "verif_std.rs")}
+         # shim=True: the Layer W scheduler shim; otherwise a plain re-export of std (layers that need no scheduling)
+         "UAZU_STAKKER_VERIF_STD": os.path.join(ROOT, "harness", "shim", "verif_std.rs" if shim else "passthrough.rs")}
     if env:
         e.update(env)
     with Lock("cargo-%s%s" % (crate, tag)):
